@@ -135,14 +135,18 @@ Fixpoint coalesce_rev (acc : list token) (ts : list token) : list token :=
   end.
 Definition coalesce (ts : token * list token) : list token := coalesce_rev [fst ts] (snd ts).
 
-(** reference / ref_item: the only recursion of the grammar; [f] bounds the nesting depth. *)
-Fixpoint reference (f : nat) : parser token :=
-  match f with
-  | 0 => fun _ => PFuel
-  | S f' =>
+(** reference / ref_item: the only recursion of the grammar.  The code accepts references
+    enclosed by at most MAX_REF_NESTING = 128 other references and fails (recoverably) beyond
+    that; [b] is the number of nesting levels still allowed, so the recursion is structural. *)
+Definition MAX_REF_NESTING : nat := 128.
+
+Fixpoint reference (b : nat) : parser token :=
+  match b with
+  | 0 => fun _ => PFail                     (* depth > MAX_REF_NESTING *)
+  | S b' =>
       fun s =>
         pbind (ref_open s) (fun r1 _ =>
-        pbind (many1 (alt [reference f'; pmap ref_string TLit]) r1) (fun r2 toks =>
+        pbind (many1 (alt [reference b'; pmap ref_string TLit]) r1) (fun r2 toks =>
         pbind (ref_close r2) (fun r3 _ =>
         POk r3 (TRef (coalesce toks)))))
   end.
@@ -174,8 +178,7 @@ Definition parse_ref_fuel (f : nat) (s : string) : pres token :=
       end
   end.
 
-Definition parse_fuel (s : string) : nat := S (length s).
-Definition parse_ref (s : string) : pres token := parse_ref_fuel (parse_fuel s) s.
+Definition parse_ref (s : string) : pres token := parse_ref_fuel (S MAX_REF_NESTING) s.
 
 (** Token::parse *)
 Inductive parsed := NoRef | Parsed (t : token) | ParseError | ParseFuel.
